@@ -5,10 +5,11 @@ acceptance regions with false-alarm probability below 1e-8 per run (bounded, nev
      over R runs is Binomial(R*N, exp(-lam*t));
  (b) the first waiting time from n individuals is Exponential(total rate), so the sum over R runs is
      Gamma(R, scale = 1/total rate);
- (c) two competing events with rates r1 : r2 -- the first event is event 1 with probability r1/(r1+r2)."""
+ (c) two competing events with rates r1 : r2 -- the first event is event 1 with probability r1/(r1+r2);
+ (d) the occupancy law of (a) read off the gridded output solve_stochast(grid, R, exact=True), also long after absorption."""
 import numpy as np
 
-ALPHA = 1e-9     # per test; at most 6 tests per run
+ALPHA = 1e-10     # per test; at most 7 tests per parameter set, 2 (quick) or 8 (thorough) sets: below 1e-8 per run of the check
 
 
 def _model(r1, r2, n):
@@ -50,7 +51,20 @@ def case(c):
         blo, bhi = st.binom.ppf(ALPHA / 2, R, q), st.binom.ppf(1 - ALPHA / 2, R, q)
         if not (blo <= first_is_1 <= bhi):
             bad.append("first event is event 1 in %d of %d runs, acceptance region [%d, %d] of Binomial(%d, %.3f)" % (first_is_1, R, blo, bhi, R, q))
-    return bad, R
+    # (d) the same law read off the gridded output of solve_stochast(grid, R, exact=True): occupancy at every grid time, also long
+    # after the chain has been absorbed (every rate zero before the horizon)
+    grid = np.array([0.0, 0.5 * t, t, 3.0 * t, 12.0 / (r1 + r2)])
+    np.random.seed(seed + 1)
+    with native.quiet():
+        Xg = m.solve_stochast(grid, R, exact=True)
+    Xg = Xg[0] if isinstance(Xg, tuple) else Xg
+    for gi in range(1, len(grid)):
+        alive_g = sum(int(round(float(np.asarray(X)[gi][0]))) for X in Xg)
+        pg = float(np.exp(-(r1 + r2) * grid[gi]))
+        lo, hi = st.binom.ppf(ALPHA / 2, R * n, pg), st.binom.ppf(1 - ALPHA / 2, R * n, pg)
+        if not (lo <= alive_g <= hi):
+            bad.append("gridded output: alive at grid time %.3f over %d runs: %d, exact acceptance region [%d, %d] of Binomial(%d, %.4g)" % (grid[gi], R, alive_g, lo, hi, R * n, pg))
+    return bad, 2 * R
 
 
 def cases(tier, seed):
